@@ -453,6 +453,8 @@ class BinnedTrees(Iterable[AngularTree]):
             new._patch = patch
             new.binning = binning
 
+            # the binning file vouches for the trees, invalidate it first
+            new.binning_file.unlink(missing_ok=True)
             with new.trees_file.open(mode="wb") as f:
                 trees = build_trees(patch, binning, leafsize=leafsize)
                 pickle.dump(trees, f)
